@@ -46,8 +46,8 @@ Proof. vm_compute. split; reflexivity. Qed.
    (record in the history - snapshot of the live observers - j's live callback) with j's subscribe steps. *)
 From RX Require Import ConcHist.
 From RXP Require Import HistConc.
-From RX Require Import ConcClose ConcReplayClose.
-From RXP Require Import CloseConc ReplayCloseConc.
+From RX Require Import ConcClose ConcReplayClose ConcBehaviorClose.
+From RXP Require Import CloseConc ReplayCloseConc BehaviorCloseConc.
 
 (* ReplaySubject: once the replay is over j has received positions 0..k-1 of the history in push order followed by
    live items; for every producer not in the middle of a push j has received ALL its items, each exactly once, in
@@ -159,6 +159,30 @@ Example C12_replay_close_examples :
   rc_got_replay (rcrun [RcFlag; RcJoin; RcDrain; RcNotify; RcReplay] rcinit) = true /\
   rc_got_replay (rcrun [RcFlag; RcDrain; RcNotify; RcJoin; RcReplay] rcinit) = true.
 Proof. vm_compute. repeat split. Qed.
+
+(* BehaviorSubject::complete / error racing a subscriber (Model/ConcBehaviorClose.v): the subscriber keeps the guards on the stored
+   value / stored error from its check of the stored terminal until it has registered with the live subject - ONE section, which
+   excludes the closer's store.  Under every interleaving the newcomer is handed the terminal exactly once. *)
+Theorem C12_behavior_close_hands_over_the_terminal_once :
+  forall acts, let c := bhrun acts (bhinit true) in
+  bh_checked c = true -> bh_notified c = true ->
+  (bh_got_stored c = true /\ bh_got_live c = false) \/ (bh_got_stored c = false /\ bh_got_live c = true).
+Proof. exact behavior_close_hands_over_the_terminal_once. Qed.
+Check C12_behavior_close_hands_over_the_terminal_once :
+  forall acts, let c := bhrun acts (bhinit true) in
+  bh_checked c = true -> bh_notified c = true ->
+  (bh_got_stored c = true /\ bh_got_live c = false) \/ (bh_got_stored c = false /\ bh_got_live c = true).
+Print Assumptions C12_behavior_close_hands_over_the_terminal_once.
+(* with the guard on the stored error released between the check and the registration the newcomer is lost (the shape of a seeded
+   change that the race-e cases report on the implementation) *)
+Example C12_behavior_unguarded_witness :
+  let c := bhrun [BhCheck; BhFlag; BhDrain; BhNotify; BhJoin] (bhinit false) in
+  bh_checked c = true /\ bh_notified c = true /\ bh_joined c = true /\ bh_got_stored c = false /\ bh_got_live c = false.
+Proof. exact unguarded_behavior_close_loses_a_subscriber. Qed.
+Example C12_behavior_close_examples :
+  bh_got_live (bhrun [BhCheck; BhFlag; BhDrain; BhNotify] (bhinit true)) = true /\
+  bh_got_stored (bhrun [BhFlag; BhDrain; BhCheck; BhNotify] (bhinit true)) = true.
+Proof. vm_compute. split; reflexivity. Qed.
 
 (* Non-vacuity: the item 10 is recorded before j's replay and broadcast after it - the window of the repaired defect
    D15 - and is received once; 11 arrives live. *)
